@@ -413,78 +413,84 @@ theorem evalFx_iff (a b d : Fx) (c : Ctx σ) :
       | none => rfl
       | some bb => cases bb <;> rfl
 
-/-- `Fx.sc` of the evaluator model is the scalar loop `SCs` over the thunks of its arguments … -/
+/-- `Fx.sc` of the evaluator model is the loop `SCs` over the thunks of its arguments (each evaluated argument
+    flattened and judged by `Evaluator.itemsVerdict`, generic in the truth function) … -/
 theorem evalSc_eq (isAnd : Bool) (args : List Fx) : ∀ c : Ctx σ,
     evalSc S sem ce c isAnd args = SCs sem.truth isAnd (args.map fun a x => evalFx S sem ce x a) c := by
   induction args with
   | nil => intro c; simp [evalSc, SCs]
   | cons a rest ih =>
     intro c
-    simp only [evalSc, List.map_cons, SCs]
+    simp only [evalSc, List.map_cons, SCs, argVerdict]
     cases evalFx S sem ce c a with
     | mk c' r =>
       cases r with
       | exc k n => rfl
       | val v =>
         simp only
-        split
-        · exact ih c'
-        · cases sem.truth v with
-          | none => rfl
-          | some bb =>
-            simp only
-            split
-            · exact ih c'
-            · rfl
+        cases itemsVerdict sem.truth isAnd (argItems v) with
+        | neutral => exact ih c'
+        | decided b => rfl
+        | error e => rfl
 
-/-- … which coincides with the loop of logical.py (`SC`: flatten, errors first, blanks skipped) whenever the
-    argument thunks return scalars -/
-theorem SCs_eq_SC {τ : Type} (isAnd : Bool) (ts : List (XExpr τ))
-    (hs : ∀ t ∈ ts, ∀ s s' v, t s = (s', .val v) → ∃ x, v = .s x) :
+/-- … which, under the truth function of logical.py, IS the loop of logical.py (`SC`: flatten, errors first,
+    blanks skipped, the first deciding item stops) — for ARBITRARY argument thunks: scalar-valued or
+    array-valued (range arguments), returning, raising or diverging.  (Before the evaluator model flattened
+    its AND / OR arguments this held for scalar-valued arguments only.) -/
+theorem SCs_eq_SC {τ : Type} (isAnd : Bool) (ts : List (XExpr τ)) :
     ∀ s, SCs truthOf isAnd ts s = SC isAnd ts s := by
   induction ts with
   | nil => intro s; rfl
   | cons t rest ih =>
     intro s
-    have ihr := ih (fun t' ht' => hs t' (by simp [ht']))
     simp only [SCs, SC]
     cases ht : t s with
     | mk s1 r =>
       cases r with
       | exc k n => rfl
       | val v =>
-        obtain ⟨x, rfl⟩ := hs t (by simp) s s1 v ht
-        simp only
-        cases x with
-        | err c => simp [isEmptyValue, truthOf, stepOf, flat, firstError]
-        | blank => simp [isEmptyValue, stepOf, flat, firstError, decides, isBlankItem, ihr]
-        | text tx =>
-          cases tx with
-          | nil => simp [isEmptyValue, stepOf, flat, firstError, decides, isBlankItem, ihr]
-          | cons ch tl =>
-            simp only [isEmptyValue, truthOf, stepOf, flat, firstError, decides, isBlankItem]
-            by_cases hq : truthy (.text (ch :: tl)) = isAnd
-            · simp [hq, ihr]
-            · have : truthy (.text (ch :: tl)) = !isAnd := by cases isAnd <;> simp_all
-              simp [this]
-        | num nn =>
-          simp only [isEmptyValue, truthOf, stepOf, flat, firstError, decides, isBlankItem]
-          by_cases hq : truthy (.num nn) = isAnd
-          · simp [hq, ihr]
-          · have : truthy (.num nn) = !isAnd := by cases isAnd <;> simp_all
-            simp [this]
-        | bool bb =>
-          simp only [isEmptyValue, truthOf, stepOf, flat, firstError, decides, isBlankItem]
-          by_cases hq : truthy (.bool bb) = isAnd
-          · simp [hq, ihr]
-          · have : truthy (.bool bb) = !isAnd := by cases isAnd <;> simp_all
-            simp [this]
-        | date dd =>
-          simp only [isEmptyValue, truthOf, stepOf, flat, firstError, decides, isBlankItem]
-          by_cases hq : truthy (.date dd) = isAnd
-          · simp [hq, ihr]
-          · have : truthy (.date dd) = !isAnd := by cases isAnd <;> simp_all
-            simp [this]
+        simp only [itemsVerdict_truthOf]
+        cases stepOf isAnd v with
+        | error c => rfl
+        | decided => rfl
+        | «continue» => exact ih s1
+
+/-- the per-argument verdict of the evaluator model under logical.py's truth function is `stepOf` -/
+theorem argVerdict_eq_stepOf (hsem : sem.truth = truthOf) (isAnd : Bool) (v : V) :
+    argVerdict sem isAnd v = stepVerdict isAnd (stepOf isAnd v) := by
+  rw [argVerdict, hsem, itemsVerdict_truthOf]
+
+/-- **the embedding of AND / OR.**  In the evaluator model — any store, any cross-cell evaluator, any strict
+    functions, the truth function of logical.py — `Fx.sc isAnd args` evaluates exactly like the body of
+    AND / OR (`SC`) applied to the thunks of its argument formulas, whatever these are: literals, cell
+    references, RANGES (arrays), nested calls.  Hence `and_or_shape`, `and_or_lazy`, `and_or_error`,
+    `and_or_spec` and `and_or_refines` all speak about `Fx.sc`. -/
+theorem evalSc_eq_SC (hsem : sem.truth = truthOf) (isAnd : Bool) (args : List Fx) (c : Ctx σ) :
+    evalSc S sem ce c isAnd args = SC isAnd (args.map fun a x => evalFx S sem ce x a) c := by
+  rw [evalSc_eq, hsem, SCs_eq_SC]
+
+theorem evalFx_sc (hsem : sem.truth = truthOf) (isAnd : Bool) (args : List Fx) (c : Ctx σ) :
+    evalFx S sem ce c (.sc isAnd args) = SC isAnd (args.map fun a x => evalFx S sem ce x a) c := by
+  rw [evalFx, evalSc_eq_SC S sem ce hsem]
+
+/-- with at least one argument that is also the registered function `AND` / `OR` (`ANDOR_`: `#NULL!` without
+    arguments) on the embedded formulas -/
+theorem evalLx_andor_fx (hsem : sem.truth = truthOf) (isAnd : Bool) (args : List Fx) (hne : args ≠ []) (c : Ctx σ) :
+    evalLx S sem ce (.andor isAnd (args.map .fx)) c = evalFx S sem ce c (.sc isAnd args) := by
+  have hth : thunks S sem ce (args.map .fx) = args.map fun a x => evalFx S sem ce x a := by
+    induction args with
+    | nil => rfl
+    | cons a rest ih =>
+      simp only [List.map_cons, thunks, evalLx]
+      cases rest with
+      | nil => rfl
+      | cons b r => rw [ih (by simp)]
+  have hemp : (thunks S sem ce (args.map .fx)).isEmpty = false := by
+    rw [hth]; cases args with
+    | nil => exact absurd rfl hne
+    | cons a r => rfl
+  rw [evalFx_sc S sem ce hsem, evalLx, ANDOR_, hemp, hth]
+  rfl
 
 /-- a static cycle (or any other poison) in the branch that is NOT selected has no effect: the unselected
     sub-formula can be replaced by any other formula -/
@@ -596,6 +602,23 @@ def lazyCycle (b : Bool) : MState :=
 example : (evaluate exSem 10 (lazyCycle true) (adr "A1")).2.1 = .val one := by decide
 /-- … and it IS one when the branch is selected -/
 example : (evaluate exSem 10 (lazyCycle false) (adr "A1")).2.1 = .exc .cycle 27 := by decide
+/-- a RANGE argument through `Fx.sc` of the evaluator model: B1:B4 = TRUE, FALSE, (blank), TRUE;
+    `=AND(B1:B4, A1)` is FALSE — the FALSE inside the range decides and the (self-referencing, i.e. cyclic)
+    second argument is not evaluated; `=OR(B1:B4, A1)` is TRUE for the same reason;
+    with #N/A in B4 both are #N/A although a deciding item precedes the error (D1001) -/
+def rangeSc (isAnd : Bool) (b4 : V) (b1 : V := tt) : MState :=
+  { cells := [(adr "A1", { value := .s .blank, formula := some (.sc isAnd [.rng (adr "B1:B4"), .ref (adr "A1")]),
+                           formulaLen := 15 }),
+              (adr "B1", { value := b1, formula := none }), (adr "B2", { value := ff, formula := none }),
+              (adr "B3", { value := .s .blank, formula := none }), (adr "B4", { value := b4, formula := none })],
+    ranges := [(adr "B1:B4", { cells := [[adr "B1"], [adr "B2"], [adr "B3"], [adr "B4"]] })], names := [] }
+example : (evaluate exSem 10 (rangeSc true tt) (adr "A1")).2.1 = .val ff := by decide
+example : (evaluate exSem 10 (rangeSc false tt) (adr "A1")).2.1 = .val tt := by decide
+example : (evaluate exSem 10 (rangeSc true na) (adr "A1")).2.1 = .val na ∧
+    (evaluate exSem 10 (rangeSc false na) (adr "A1")).2.1 = .val na := by decide
+/-- a neutral range does not stop: `=OR(B1:B4, A1)` over FALSE, FALSE, (blank), FALSE evaluates the cyclic
+    second argument -/
+example : (evaluate exSem 10 (rangeSc false ff ff) (adr "A1")).2.1 = .exc .cycle 27 := by decide
 /-- hypotheses of `and_or_lazy` / `and_or_error` are met by a run with a neutral prefix -/
 example : Run [K tt, K (.s .blank)] ctx0 [tt, .s .blank] ctx0 := .cons rfl (.cons rfl (.nil _))
 example : ∀ w ∈ [tt, V.s .blank], stepOf true w = .continue := by decide
